@@ -260,6 +260,44 @@ def check_copy_in(ctx):
         'of a deep copy')
 
 
+def check_node_writes(ctx, rule):
+    """The check objects of a registered default are the very nodes that are
+    evaluated: a check method on the evaluation side that stores into its
+    own node (a memo, a counter, the request being decided) alters what the
+    service registered - and makes one evaluation see what another left."""
+    prog = ctx.prog
+    classes = G.check_classes(prog)
+    helpers = set()
+    for cc in classes.values():
+        helpers |= set(cc.append_methods) | set(cc.pop_methods)
+    # (checks are called through the adapter, dynamically: their __call__
+    # methods and what those reach are the evaluation side)
+    ev_region = {}
+    for q in classes:
+        call = prog.find_method(q, '__call__')
+        if call is not None and call.module.name.startswith(PKG):
+            ev_region.update(prog.region(call))
+    ctx.extra['evaluation_region'] = len(ev_region)
+    n = 0
+    for q, f in sorted(ev_region.items()):
+        if f.cls is None or f.cls.qual not in classes or f.name in (
+                '__init__',) or f.name in helpers:
+            continue
+        for e in effects_of(f):
+            if e.kind == 'global' or not e.path.startswith('self.'):
+                continue
+            n += 1
+            ctx.ob(rule, False, ctx.where(f.module, e.node),
+                   f.qual, U(e.node)[:100],
+                   'this %s writes into the check node itself (`%s`) while '
+                   'rules are evaluated: the node can be part of a '
+                   'registered default, which evaluation then alters, and '
+                   'what it holds is seen by every other evaluation of the '
+                   'same node (another request, a later reload)' % (
+                       e.kind, e.path))
+    return n, len(ev_region)
+
+
 def check_no_write(ctx):
     prog = ctx.prog
     region = dict(prog.region(ENF + '.load_rules', ENF + '.enforce'))
@@ -290,35 +328,7 @@ def check_no_write(ctx):
                        'registered default (or a rule object reachable from '
                        'it): loading/enforcing alters what the service '
                        'registered' % (e.kind, e.path))
-    # the check objects of a registered default are the very nodes that are
-    # evaluated: a check method on the evaluation side that stores into its
-    # own node (a memo, a counter) alters what the service registered
-    classes = G.check_classes(prog)
-    helpers = set()
-    for cc in classes.values():
-        helpers |= set(cc.append_methods) | set(cc.pop_methods)
-    # (checks are called through the adapter, dynamically: their __call__
-    # methods and what those reach are the evaluation side)
-    ev_region = {}
-    for q in classes:
-        call = prog.find_method(q, '__call__')
-        if call is not None and call.module.name.startswith(PKG):
-            ev_region.update(prog.region(call))
-    ctx.extra['evaluation_region'] = len(ev_region)
-    for q, f in sorted(ev_region.items()):
-        if f.cls is None or f.cls.qual not in classes or f.name in (
-                '__init__',) or f.name in helpers:
-            continue
-        for e in effects_of(f):
-            if e.kind == 'global' or not e.path.startswith('self.'):
-                continue
-            ctx.ob('C12.NO-WRITE', False, ctx.where(f.module, e.node),
-                   f.qual, U(e.node)[:100],
-                   'this %s writes into the check node itself (`%s`) while '
-                   'rules are evaluated: the node can be part of a '
-                   'registered default, which evaluation then alters (and '
-                   'what it remembers outlives a reload that updates the '
-                   'rule store in place)' % (e.kind, e.path))
+    check_node_writes(ctx, 'C12.NO-WRITE')
     ctx.count(n_eff)
     ctx.floor('C12.NO-WRITE', n_tainted_fn, 2,
               'functions handling registered defaults')
@@ -532,6 +542,9 @@ def check(ctx):
     _c10.check_reapply_and_reset(ctx)
     _c10.check_dir_forced(ctx)
     _c10.check_pair(ctx)
+    # every enforcement call - whatever it is given to enforce - takes the
+    # load step first (= C10.LOAD-FIRST)
+    _c10.check_load_first(ctx)
     # no state that gates a store-writing step is switched off by a load:
     # later loads would skip that step for good
     from . import c20 as _c20
